@@ -9,12 +9,14 @@ FQ12 = "crate::fields::fq12::Fq12"
 
 
 class ExpDomain:
-    def __init__(self, repo, trust_pow=True):
+    def __init__(self, repo, trust_pow=True, pow_path=None):
         self.repo = repo
+        self.pow_path = pow_path
         self.q = repo.P.q
         self.M = self.q ** 12 - 1
         self.trust_pow = trust_pow
         self.used = set()
+        self.pow_seen = set()
 
     def E(self, n):
         return ("E", n % self.M)
@@ -69,9 +71,10 @@ class ExpDomain:
                 if a is not None and isinstance(k, int) and 0 <= k <= 12:
                     return self.E(a * self.q ** k)
                 return TOP
-            if n == "pow" and len(args) == 2 and isinstance(args[1], int) and self.trust_pow:
+            if fk.d == self.pow_path and len(args) == 2 and isinstance(args[1], int) and self.trust_pow:
                 a = self.val(ex, args[0])
                 self.used.add("pow")
+                self.pow_seen.add(args[1])
                 return self.E(a * args[1]) if a is not None else TOP
             if n == "one" and not args:
                 return self.E(0)
@@ -126,11 +129,20 @@ def rule_exp(prop, repo):
     entries = [b for p, b in chains.items() if (b.rec.get("output") or "").startswith("core::option::Option<") and b.vis == "Public"]
     if len(entries) < 2:
         R.fail_closed("%s:exp:anchor" % prop, "expected two public final-exponentiation routines on Fq12, found %s" % [b.rec["path"] for b in entries])
-    powb = [b for p, b in chains.items() if b.name == "pow"]
-    inline = lambda d: d in chains and (not powb or d != powb[0].rec["path"])
+    from .roles import PairingRoles
+    from core.absexec import same_module_inline
+    roles = PairingRoles(F)
+    powb = roles.pow
+    pow_path = powb[0].rec["path"] if len(powb) == 1 else None
+    if entries:
+        smi = same_module_inline(F, entries[0].rec["path"])
+        inline = lambda d: smi(d) and d != pow_path
+    else:
+        inline = lambda d: False
+    lits = set()
     for b in entries:
         R.instance()
-        dom = ExpDomain(repo)
+        dom = ExpDomain(repo, pow_path=pow_path)
         ex = AbsExec(F, dom, inline=inline)
         fr_args = [dom.E(1)]
         holder = {}
@@ -143,6 +155,7 @@ def rule_exp(prop, repo):
         except FactsError as e:
             R.fail_closed("%s:exp:%s" % (prop, b.rec["path"]), str(e))
             continue
+        lits |= dom.pow_seen
         vals = []
         for v, frx in rs:
             if isinstance(v, Adt) and v.variant == "Some" and isinstance(v.fields[0], tuple) and v.fields[0][0] == "E":
@@ -160,7 +173,7 @@ def rule_exp(prop, repo):
     fc = [b for p, b in chains.items() if b.name.endswith("first_chunk")]
     for b in fc:
         R.instance()
-        dom = ExpDomain(repo)
+        dom = ExpDomain(repo, pow_path=pow_path)
         ex = AbsExec(F, dom, inline=inline)
         from core.absexec import Frame
         hf = Frame(b, [])
@@ -171,27 +184,13 @@ def rule_exp(prop, repo):
         want = ((q ** 6 - 1) * (q ** 2 + 1)) % M
         R.check(vals and all(x == want for x in vals), "%s:exp:%s" % (prop, b.rec["path"]), "easy part is not x^((q^6−1)(q^2+1))", b.file_line(), b.rec["path"],
                 sample={"fn": b.rec["path"], "equals_(q^6-1)(q^2+1)": True})
-    # Fq12::pow(c): abstract execution with the literal exponent propagated through the loop
-    lits = set()
-    for p, b in chains.items():
-        tb = repo.tb(b)
-        for bb, t in b.calls():
-            if powb and (t.get("fn") or {}).get("res_def") == powb[0].rec["path"]:
-                a = tb.call_args(bb)[1]
-                from core.terms import strip
-                a = strip(a)
-                if a[0] == "const" and "int" in a[1]:
-                    lits.add(int(a[1]["int"]))
-                elif a[0] == "const" and "uneval_def" in a[1] and a[1]["uneval_def"] in F.consts and "int" in F.consts[a[1]["uneval_def"]]:
-                    lits.add(int(F.consts[a[1]["uneval_def"]]["int"]))
-                else:
-                    R.fail_closed("%s:exp:pow-arg:%s" % (prop, p), "Fq12::pow called with a non-literal exponent in %s" % p, shared.loc_of(b, bb))
-    if powb:
+    # Fq12::pow(c): abstract execution with every exponent the chains passed to it, propagated through its loop
+    if pow_path:
         pb = powb[0]
         for c in sorted(lits | {0, 1, 2, 3}):
             R.instance()
-            dom = ExpDomain(repo, trust_pow=False)
-            ex = AbsExec(F, dom, inline=lambda d: False)
+            dom = ExpDomain(repo, trust_pow=False, pow_path=pow_path)
+            ex = AbsExec(F, dom, inline=lambda d: smi(d) and d != pow_path)
             from core.absexec import Frame
             hf = Frame(pb, [])
             hf.env[0] = dom.E(1)
